@@ -32,6 +32,12 @@ func runC06(w *World, r *Report) {
 	sizeRules(w, r, func(k *Kind) bool { return true })
 	r.Rule("order", "builders only extend the lists the encoder walks; they never reassign elements in place", 7)
 	orderRule(w, r)
+	r.Rule("childerr", "the error of every encode call that can fail is read before the child's bytes are used (a child that produced nothing makes the parent fail instead of being left out silently)", 60)
+	childErrRule(w, r, "childerr")
+	r.Rule("noconsume", "size functions, encoders and read accessors (Get*, Header, String) hand nothing reachable from the value to outside code that could change it (a drained reader, a re-sorted list): what was added stays in the message", 200)
+	noConsumeRule(w, r, "noconsume", readRoot)
+	r.Rule("typednil", "no pointer that may be nil is stored into an interface-typed field (a typed nil passes the encoders' != nil guards)", 1)
+	typedNilRule(w, r, "typednil")
 }
 
 // sizeRules runs size/embed/nooverlap over the selected kinds.
